@@ -4,6 +4,7 @@ mod cluster2;
 mod explore;
 mod fam_clusterelect;
 mod fam_remoteactor;
+mod fam_factory;
 mod fam_lifecycle;
 mod fam_mailbox;
 mod fam_mailbox_t;
@@ -77,6 +78,7 @@ fn main() {
         fam_timer::dispatch,
         fam_rpc::dispatch,
         fam_outport::dispatch,
+        fam_factory::dispatch,
     ];
     for f in fams {
         if let Some(summary) = f(&cmd, &a) {
